@@ -135,7 +135,19 @@ pub fn cache_case(r: &mut Rng, n_targets: usize, n_ops: usize, roll: bool) -> St
             entry_coq(tidx, class, e)
         })
         .collect();
-    format!("KCache [{}] [{}] {} {}", ops.join("; "), entries.join("; "), stats_coq(&snap.stats), stats_coq(&snap.signed_stats))
+    // the derived statistics: what Info reports, what replica selection reads; the deviation formula is re-computed here
+    let dev_ok = |count: usize, dev: f64| (dev - 0.281 * (count as f64).powf(-0.529)).abs() < 1e-12 || (count == 0 && dev.is_infinite());
+    let derived = |d: &(usize, f64, usize, usize), st: &(usize, f64, usize, f64, usize)| format!("({}, {}, {}, {})", z(d.0 as i128), boolean(dev_ok(st.0, d.1)), z(d.2 as i128), z(d.3 as i128));
+    format!(
+        "KCache [{}] [{}] {} {} {} {} {}",
+        ops.join("; "),
+        entries.join("; "),
+        stats_coq(&snap.stats),
+        stats_coq(&snap.signed_stats),
+        derived(&snap.derived, &snap.stats),
+        derived(&snap.signed_derived, &snap.signed_stats),
+        z(snap.info_estimate.0 as i128)
+    )
 }
 
 /// mixed workload with losses, then a quiet period: is anything left?
